@@ -351,7 +351,7 @@ func liveKey(keys []int32, n int) (int32, bool) {
 	return keys[n%len(keys)], true
 }
 
-var pairRE = regexp.MustCompile(`(-?\d+)=(s?-?\d+)`)
+var pairRE = regexp.MustCompile(`(-?\d+)=(s?-?\d+|<nil>)`)
 var intRE = regexp.MustCompile(`-?\d+`)
 
 // =====================================================================================
@@ -884,6 +884,9 @@ func drawIK(t *rapid.T) IKCase {
 
 // ikVal maps the case's int32 value onto the stored interface{} (comparable; never nil: callers never store nil).
 func ikVal(v int32, str bool) interface{} {
+	if v%7 == 3 { // the nil object is a value like any other ("no object yet")
+		return nil
+	}
 	if str {
 		return "s" + strconv.Itoa(int(v))
 	}
@@ -1064,6 +1067,11 @@ func runIK(c IKCase) *pbt.Result {
 				break
 			}
 			v := ikVal(op.V, op.B)
+			if v == nil {
+				// ContainsValue(nil) answers false by an explicit rule of the code (the Java original rejects null
+				// values); whether a stored nil "is contained" is not part of the map model - not asserted
+				break
+			}
 			want := false
 			for _, x := range md {
 				if x == v {
